@@ -34,6 +34,7 @@ fn table(id: &str) -> Option<(RunFn, CheckFn)> {
         "C12" => Some((props::c12::run, props::c12::check_case)),
         "C15" => Some((props::c15::run, props::c15::check_case)),
         "C19" => Some((props::c19::run, props::c19::check_case)),
+        "C20" => Some((props::c20::run, props::c20::check_case)),
         "C17" => Some((props::c17::run, props::c17::check_case)),
         "C18" => Some((props::c18::run, props::c18::check_case)),
         _ => None,
@@ -71,6 +72,7 @@ fn main() {
             let num = |i: usize| a.get(i).and_then(|x| x.parse::<u64>().ok()).unwrap_or(0);
             let code = match a[0] {
                 "leftrec" => props::c11::leftrec_worker(num(1) as usize, num(2), num(3)),
+                "c20run" => props::c20::run_inner(if a[1] == "thorough" { Tier::Thorough } else { Tier::Quick }, num(2)),
                 "depth" => props::c12::depth_worker(a[1], a[2], a[3], num(4) as usize, num(5) == 1),
                 _ => 2,
             };
